@@ -52,6 +52,29 @@ class Cones:
             depth += 1
         return tuple(o[:2]), off
 
+    def roots(self, o, depth=0, seen=None):
+        """set of root operands an address may be based on (through GEPs, casts, phis and selects)"""
+        seen = set() if seen is None else seen
+        out = set()
+        stack = [o]
+        while stack:
+            x = stack.pop()
+            r, _off = self.addr(x)
+            if r[0] != "v":
+                out.add(r)
+                continue
+            if r[1] in seen:
+                continue
+            seen.add(r[1])
+            ins = self.insts[r[1]]
+            if ins["op"] == "phi":
+                stack.extend(v for v, _b in ins["inc"])
+            elif ins["op"] == "select":
+                stack.extend(ins["ops"][-2:])
+            else:
+                out.add(r)
+        return out
+
     def _index_vars(self, o):
         """SSA values used as (non-constant) indices along the address computation of o"""
         out = []
